@@ -21,6 +21,7 @@ import (
 
 	"reservoir/cache"
 	"reservoir/config"
+	"reservoir/logging"
 	"reservoir/utils/bytesize"
 	"reservoir/utils/duration"
 	"verifharness/e2elib"
@@ -221,6 +222,7 @@ func configChangeOverLimit(ctx context.Context, c hooks, cfg *config.Config, r *
 // requestScenarios: hangs that would sit outside the cache package.
 //   - expired-leaf-reissue: a tunnel to a host whose cached certificate has run out, and a tunnel to another host
 //     right after it, both complete (the certificate table's lock is not held across its own operations);
+//   - log-file-unwritable: see below;
 //   - unparseable-range-416-retry: a request whose Range the proxy cannot parse (so it is coalesced) and that the origin
 //     answers with 416 is answered, and so is the next plain GET of that URL (the retry does not wait for its own flight).
 func requestScenarios(dir string) [][2]string {
@@ -285,6 +287,38 @@ func requestScenarios(dir string) [][2]string {
 				break
 			}
 		}
+		if !hung {
+			env.Close()
+		}
+		os.RemoveAll(d)
+	}
+	// the log file becomes unwritable while the proxy runs (the real logging set-up of package logging, once per process):
+	// requests are still answered
+	{
+		d := dir + "-log"
+		env, err := e2elib.Start(e2elib.Options{Backend: "memory", Dir: d})
+		if err != nil {
+			panic(err)
+		}
+		env.Origin.SetHandler(func(req e2elib.OriginRequest, n int) e2elib.Answer {
+			return e2elib.NewAnswer(200, []byte("0123456789"), "Cache-Control: max-age=60")
+		})
+		env.Cfg.Logging.ToStdout.Overwrite(false)
+		env.Cfg.Logging.File.Overwrite(filepath.Join(d, "logs", "proxy.log"))
+		logging.Init(env.Cfg)
+		env.DoPlain(env.PlainRequest("GET", "/log-ok", nil, nil), "GET", 6*time.Second)
+		os.WriteFile(filepath.Join(d, "plainfile"), []byte("x"), 0644)
+		env.Cfg.Logging.File.Overwrite(filepath.Join(d, "plainfile", "below", "proxy.log")) // cannot be created
+		time.Sleep(30 * time.Millisecond)                                                   // the listener swaps the writers
+		hung := false
+		for _, path := range []string{"/log-miss", "/log-ok", "/log-miss"} {
+			if _, err := env.DoPlain(env.PlainRequest("GET", path, nil, nil), "GET", 6*time.Second); err != nil {
+				out = append(out, [2]string{"log-file-unwritable", fmt.Sprintf("after the log file became unwritable GET %s was not answered within 6 s: %v", path, err)})
+				hung = true
+				break
+			}
+		}
+		e2elib.Quiet()
 		if !hung {
 			env.Close()
 		}
@@ -376,12 +410,13 @@ func main() {
 			failures = append(failures, fail{scenario: scenario{Name: f[0]}, What: f[1]})
 		}
 	}
-	executed += 2
+	executed += 3
+	dist["log-file-unwritable"]++
 	dist["expired-leaf-reissue"]++
 	dist["unparseable-range-416-retry"]++
 	out := map[string]any{
 		"harness": "sync", "seed": *flagSeed, "tier": *flagTier, "total": executed, "distinct": executed, "distinct_nontrivial": executed,
-		"rule":         "forced concurrency scenarios (store-triggered eviction with victims on the caller's shard; 8 workers x 250 mixed ops on colliding keys with 1 ms janitor ticks and limit/interval/budget change events; Destroy during a cycle; back-to-back interval changes) + request-level scenarios (tunnel to a host whose cached certificate has run out, then another host; a request with an unparseable Range answered 416 under retry_on_range_416, then a plain GET) x backends {memory,file} x shards {1,2,3,64}; every scenario under a watchdog; non-trivial = all",
+		"rule":         "forced concurrency scenarios (store-triggered eviction with victims on the caller's shard; 8 workers x 250 mixed ops on colliding keys with 1 ms janitor ticks and limit/interval/budget change events; Destroy during a cycle; back-to-back interval changes) + request-level scenarios (tunnel to a host whose cached certificate has run out, then another host; a request with an unparseable Range answered 416 under retry_on_range_416, then a plain GET; the log file becoming unwritable under the real logging set-up) x backends {memory,file} x shards {1,2,3,64}; every scenario under a watchdog; non-trivial = all",
 		"distribution": map[string]any{"scenario": dist},
 		"samples":      []any{map[string]any{"scenario": "store-evict-same-shard", "backend": "memory", "shards": 1}},
 		"files":        []string{},
